@@ -30,7 +30,7 @@ CLASS_NAMES = ["A", "A1", "B", "C", "D", "E", "F"]
 
 # argument pool, chosen to collide: -1/-2 (equal hashes, unequal values),
 # 1 / 1.0 / True (equal values), tuples built afresh on every use, strings
-ARG_POOL = [-1, -2, 0, 1, 1.0, True, "a", "b", ["t", 1], ["t", 2], [], None, 2**61 - 1, 0.5]
+ARG_POOL = [-1, -2, 0, 1, 1.0, True, "a", "b", ["t", 1], ["t", 2], [], None, 2**61 - 1, 0.5, False, 0.0]
 KW_NAMES = ["x", "y", "z", "key", "hashfunc", "instance", "name"]
 
 
@@ -200,6 +200,7 @@ class C17(engine.Property):
         "construction-failed-in-init",
         "arguments-shaped-like-another-call's-key",
         "no-reference-held-construct-live-key",
+        "keyword-value-equal-but-other-type",
     ]
 
     def make_config(self, rng):
@@ -249,6 +250,19 @@ class C17(engine.Property):
             text = json.dumps({k: decode_arg(v) for k, v in kw}, sort_keys=True)
             st.stats["probe:arguments-shaped-like-another-call's-key"] += 1
             return [list(a), text], []
+        if with_kw and rng.random() < 0.12:
+            # the same call with one keyword value swapped for an EQUAL value of
+            # another type (1 / True / 1.0, 0 / False / 0.0 / -0.0): equal, but
+            # their JSON texts differ, so these are different keys
+            a, kw = rng.choice(with_kw)
+            kw = [list(x) for x in kw]
+            i = rng.randrange(len(kw))
+            twins = {1: [True, 1.0], True: [1, 1.0], 1.0: [1, True], 0: [False, 0.0, -0.0], False: [0, 0.0], 0.0: [0, -0.0, False]}
+            v = kw[i][1]
+            if isinstance(v, (bool, int, float)) and v in twins:
+                kw[i][1] = rng.choice(twins[v])
+                st.stats["probe:keyword-value-equal-but-other-type"] += 1
+                return list(a), kw
         if live and rng.random() < 0.45:
             args, kwargs = rng.choice(live)
             args = list(args)
